@@ -353,19 +353,17 @@ impl<'de, R: Reader<'de>> Deserializer<R> {
         V: de::Visitor<'de>,
     {
         let mut val = Value::new();
-        if self.parser.read.index() == 0 {
+        // invalid UTF-8 that is to be repaired is handled string by string by the copying parser:
+        // a repaired copy of the whole input has other offsets than the input the reader walks
+        let lossy_repair =
+            self.parser.cfg.utf8_lossy && self.parser.read.next_invalid_utf8() != usize::MAX;
+        if self.parser.read.index() == 0 && !lossy_repair {
             // will parse the JSON inplace
             let cfg = self.parser.cfg;
             let json = self.parser.read.as_u8_slice();
 
             // get n to check trailing characters in later
-            let n = if cfg.utf8_lossy && self.parser.read.next_invalid_utf8() != usize::MAX {
-                // repr the invalid utf8, not need to care about the invalid UTF8 char in non-string
-                // parts, it will cause errors when parsing.
-                val.parse_with_padding(String::from_utf8_lossy(json).as_bytes(), cfg)?
-            } else {
-                val.parse_with_padding(json, cfg)?
-            };
+            let n = val.parse_with_padding(json, cfg)?;
             self.parser.read.eat(n);
         } else {
             let shared = unsafe {
